@@ -1,8 +1,16 @@
 #!/bin/sh
-# Build the framework from files on disk only (offline): Lean library + model drivers, Rust executor.
-set -e
+# Build the framework from files on disk only (offline): for every property claimed in MANIFEST.json the Lean
+# theorem modules + model driver and the Rust executor binary.  Each check rebuilds what it needs anyway; this
+# just warms the caches (first Mathlib import, cargo dependencies).
 cd "$(dirname "$0")"
 export CARGO_NET_OFFLINE=true
 mkdir -p out evidence
-(cd lean && lake build)
-(cd exec && cargo build --offline)
+IDS=$(python3 -c "import json;print(' '.join(c['property_id'] for c in json.load(open('MANIFEST.json'))['checks']))")
+RC=0
+for id in $IDS; do
+  lid=$(echo "$id" | tr 'A-Z' 'a-z')
+  MODS=$(python3 -c "import sys;sys.path.insert(0,'.');import importlib;m=importlib.import_module('tools.cv.$lid');print(' '.join(m.PROOF_MODULES))" 2>/dev/null)
+  (cd lean && lake build $MODS cv_$lid) || { echo "setup: lake build failed for $id"; RC=1; }
+  (cd exec && cargo build --offline --bin $lid) || { echo "setup: cargo build failed for $id"; RC=1; }
+done
+exit $RC
